@@ -68,6 +68,13 @@ impl Plain {
         }
         None
     }
+    /// address at which the first difference (as reported by `diff`) sits
+    pub fn diff_addr(&self, o: &Plain) -> Option<Address> {
+        let d = self.diff(o)?;
+        let i = d.find("0x")?;
+        let hexs = &d[i + 2..i + 42];
+        Some(Address::from_slice(&crate::fw::unhex(hexs)))
+    }
     /// classify a difference for signatures
     pub fn diff_kind(&self, o: &Plain) -> &'static str {
         match self.diff(o) {
@@ -143,11 +150,21 @@ pub fn apply_revert_group(p: &mut Plain, s0: &Plain, codes: &BTreeMap<B256, Vec<
                 }
             }
         }
+        let pre_bundle = s0.storage.get(&sr.address).cloned().unwrap_or_default();
         let m = p.storage.entry(sr.address).or_default();
         for (k, v) in &sr.storage_revert {
             let val = match v {
                 RevertToSlot::Some(x) => *x,
-                RevertToSlot::Destroyed => U256::ZERO,
+                // documented meaning (reverts.rs): "if it is destroyed, previous values can be found
+                // in database or it can be zero" — in a wiped group the database (pre-bundle) value
+                // is the previous value; otherwise the slot did not exist
+                RevertToSlot::Destroyed => {
+                    if sr.wiped {
+                        pre_bundle.get(k).copied().unwrap_or_default()
+                    } else {
+                        U256::ZERO
+                    }
+                }
             };
             if val.is_zero() {
                 m.remove(k);
@@ -244,9 +261,7 @@ pub fn child_init() -> Vec<u8> {
     let mut a = Asm::new();
     a.push_u(7).push_u(0).op(0x55);
     a.push_u(9).push_u(1).op(0x55);
-    let mut c = a.finish();
-    c.extend(initcode_returning(&child_runtime()));
-    c
+    initcode_with_prefix(&a.finish(), &child_runtime())
 }
 
 /// factory: CREATE2(value = CALLVALUE, init = embedded, salt = CALLDATALOAD(0)); returns nothing
@@ -477,7 +492,14 @@ pub fn gen_slot_pingpong(rng: &mut Rng, spec: SpecId) -> History {
 
 /// history from the generic W generator
 pub fn gen_w_history(rng: &mut Rng, spec: SpecId) -> History {
-    let case = gen_case(rng, spec, 6);
+    let mut case = gen_case(rng, spec, 6);
+    // balances near 2^256 belong to C06/C08 (overflow behaviour is a listed finding there); the
+    // state-layer histories stay inside the representable range
+    for a in case.world.accounts.values_mut() {
+        if a.balance > (U256::from(1u8) << 200) {
+            a.balance = U256::from(10u64).pow(U256::from(24u8));
+        }
+    }
     let retain = !rng.chance(1, 5);
     let mut steps = vec![];
     for t in case.txs {
